@@ -18,7 +18,8 @@ Norm(st) == [vers |-> {st.vers[i] : i \in 1..Len(st.vers)},
              ecdsaHashes |-> {st.ecdsaHashes[i] : i \in 1..Len(st.ecdsaHashes)},
              rsaSchemes |-> {st.rsaSchemes[i] : i \in 1..Len(st.rsaSchemes)},
              minKey |-> st.minKey, maxKey |-> st.maxKey, etm |-> st.etm, ems |-> st.ems, reqEms |-> st.reqEms,
-             rsl |-> st.rsl, alpn |-> st.alpn]
+             rsl |-> st.rsl, alpn |-> st.alpn,
+             pskModes |-> {st.pskModes[i] : i \in 1..Len(st.pskModes)}]
 CS == Norm(T[1].cs)
 SS == Norm(T[1].ss)
 TraceInit == tid \in 1..N /\ l = 2
